@@ -262,6 +262,31 @@ func init() {
 			r := time.Date(int(y.signed()), time.Month(mo.signed()), int(d.signed()), int(h.signed()), int(mi.signed()), int(s.signed()), int(nsec.signed()), time.UTC)
 			return TimeV{Sec: mkI64(r.Unix() - off.signed()), Nsec: mkI64(int64(r.Nanosecond())), Loc: loc}
 		}
+		// rebuilding a date from the components of one instant X in another
+		// year: Date(y, Month(X), Day(X), Hour(X), Minute(X), Second(X)) reads
+		// as X.AddDate(y - Year(X), 0, 0) (that is how AddDate is defined), so
+		// the same uninterpreted function stands on both sides of a comparison
+		// with AddDate
+		if x, ok := componentsOfOne(mo, d, h, mi, s); ok {
+			e.declTimeUFs()
+			e.tpActivate("tm_year")
+			yt := "(tm_year " + x + ")"
+			e.ufApps = append(e.ufApps, ufApp{term: yt, args: []string{x}, eval: func(vals []string) (string, bool) {
+				return bvLit(uint64(time.Unix(int64(parseBV(vals[0])), 0).UTC().Year()), 64), true
+			}})
+			dy := intBinop(token.SUB, i64(y), Int{W: 64, S: true, T: &Term{S: yt}}).(Int)
+			e.declUF("tm_addyears", "((_ BitVec 64) (_ BitVec 64)) (_ BitVec 64)")
+			t := "(tm_addyears " + x + " " + dy.term().S + ")"
+			e.ufApps = append(e.ufApps, ufApp{term: t, args: []string{x, dy.term().S}, eval: func(vals []string) (string, bool) {
+				r := time.Unix(int64(parseBV(vals[0])), 0).UTC().AddDate(int(int64(parseBV(vals[1]))), 0, 0)
+				return bvLit(uint64(r.Unix()), 64), true
+			}})
+			rs := Int{W: 64, S: true, T: &Term{S: t}}
+			if !(off.isConc() && off.signed() == 0) {
+				rs = intBinop(token.SUB, rs, off).(Int)
+			}
+			return TimeV{Sec: rs, Nsec: nsec, Loc: loc}
+		}
 		e.declTimeUFs()
 		e.tpActivate("tm_date6")
 		args := []string{i64(y).term().S, i64(mo).term().S, i64(d).term().S, i64(h).term().S, i64(mi).term().S, i64(s).term().S}
@@ -313,6 +338,32 @@ func init() {
 		}
 		return TimeV{Sec: rs, Nsec: nsec, Loc: tv.Loc}
 	}
+}
+
+// componentsOfOne: are the five values syntactically the month, day, hour,
+// minute and second of one and the same wall-clock reading X?
+func componentsOfOne(mo, d, h, mi, s Int) (string, bool) {
+	x := ""
+	for i, p := range []struct {
+		v  Int
+		uf string
+	}{{mo, "tm_month"}, {d, "tm_day"}, {h, "tm_hour"}, {mi, "tm_minute"}, {s, "tm_second"}} {
+		if p.v.T == nil {
+			return "", false
+		}
+		t := p.v.T.S
+		pre := "(" + p.uf + " "
+		if !strings.HasPrefix(t, pre) || !strings.HasSuffix(t, ")") {
+			return "", false
+		}
+		a := t[len(pre) : len(t)-1]
+		if i == 0 {
+			x = a
+		} else if a != x {
+			return "", false
+		}
+	}
+	return x, true
 }
 
 // tpRegEntry is one symbolic time.Parse result with exact fields.
